@@ -23,7 +23,7 @@ type c02Elem struct {
 	class string   // shape class for finding keys
 }
 
-var c02BindCands = []string{"a", "b", "ab", "1", "12", "a%2Fb", "%61", "%zz", "%2561", "%", "ba"}
+var c02BindCands = []string{"a", "b", "ab", "1", "12", "a%2Fb", "%61", "%zz", "%2561", "%", "ba", "\n", "a\nb", "\x00", "\xff"}
 
 func c02Elements(full bool) []c02Elem {
 	var out []c02Elem
@@ -145,6 +145,15 @@ func decode1(s string) string {
 		return u
 	}
 	return s
+}
+
+// c02Qualify makes the finding key specific for the one known input class: a newline inside the
+// value of a bare {x} that shares its segment with other elements.
+func c02Qualify(kind, segText, raw string) string {
+	if kind == "notfound-while-admitted" && strings.Contains(raw, "\n") && strings.Contains(segText, "{x") && strings.Count(segText, "{")+strings.Count(segText, "}") < len(segText) {
+		return "/newline-in-wildcard-bind"
+	}
+	return ""
 }
 
 type c02Case struct {
@@ -318,7 +327,7 @@ func c02Run(r *core.Run) {
 				}
 				if bad != "" {
 					l.Class("mismatch")
-					l.Violate(kind+"/"+j.seg.class+"/"+j.emb.name, bad+fmt.Sprintf(" [route %q, path %q]", j.cr.Text, raw), c02Case{Route: j.cr.Text, Path: raw})
+					l.Violate(kind+"/"+j.seg.class+"/"+j.emb.name+c02Qualify(kind, j.seg.text, raw), bad+fmt.Sprintf(" [route %q, path %q]", j.cr.Text, raw), c02Case{Route: j.cr.Text, Path: raw})
 					continue
 				}
 				if found {
@@ -414,7 +423,7 @@ func c02Run(r *core.Run) {
 				l.Traces++
 				bad, kind := c02FlameEval(m, f, got, j.cr, raw)
 				if bad != "" {
-					l.Violate("flame/"+kind+"/"+j.seg.class, bad+fmt.Sprintf(" [route %q, path %q]", j.cr.Text, raw), c02Case{Route: j.cr.Text, Path: raw, Flame: true})
+					l.Violate("flame/"+kind+"/"+j.seg.class+c02Qualify(kind, j.seg.text, raw), bad+fmt.Sprintf(" [route %q, path %q]", j.cr.Text, raw), c02Case{Route: j.cr.Text, Path: raw, Flame: true})
 					l.Class("mismatch")
 				} else {
 					l.Class("flame:" + kind)
